@@ -2432,7 +2432,12 @@ static void runFrac(const FracCase& c, Ctx& ctx)
                                          CHECK_EQ_DBL(cls, "fault-ranger", fa.getRanger(j), fb.getRanger(j));
                                        }
                                      }
-                                     CHECK_QRY_DBL(cls, "xextend", a.getXextend(), b.getXextend(), 1e-13);
+                                     // xextend = xmax + 2 deltax may cancel: the 15 digits are those of its two terms
+                                     if (std::fabs(a.getXextend() - b.getXextend()) > 1e-13 * (std::fabs(a.getXmax()) + 2. * std::fabs(a.getDeltax())))
+                                     {
+                                       ctx.fail(std::string(cls) + ":query:xextend", fmt("xextend: %.17g before, %.17g after reload", a.getXextend(), b.getXextend()));
+                                       return false;
+                                     }
                                      return true;
                                    }, c.fo, ctx);
   ctx.nontrivial(ok && c.nfam + c.nfault >= 2);
@@ -2542,7 +2547,12 @@ static bool cmpTransforms(const std::string& cls, const AnamContinuous& a, const
     try { za = a.transformToRawValue(y); } catch (const std::exception&) { ctx.label("query-refused-by-original"); continue; }
     zb = b.transformToRawValue(y);
     double scale = std::max(std::fabs(zlo), std::fabs(zhi));
-    if (!eqv(za, zb, 1e-11) && !(std::fabs(za - zb) <= 1e-11 * scale))
+    // where the transform is extremely steep (extrapolation between two nearly equal bounds) the 15 digits kept for the bounds move
+    // the value by slope * 1e-15: the local sensitivity to the argument is part of the tolerance
+    double sens = 0;
+    try { sens = std::fabs(a.transformToRawValue(y + 1e-14 * std::max(1., std::fabs(y))) - za); } catch (const std::exception&) { sens = 0; }
+    if (!std::isfinite(sens)) sens = 0;
+    if (!eqv(za, zb, 1e-11) && !(std::fabs(za - zb) <= 1e-11 * scale + 10. * sens))
     {
       ctx.fail(cls + ":query:transformToRawValue", fmt("y=%.17g: z=%.17g before, %.17g after reload", y, za, zb));
       return false;
